@@ -62,24 +62,45 @@ def fibreMax (a : NDArray α) (axis : Nat) (i : Idx) : α :=
 def fibreSum (f : Idx → α) (shape : Shape) (axis : Nat) (i : Idx) : α :=
   ((List.range (shape.getD axis 0)).map (fun t => f (i.set axis t))).sum
 
-def softmaxForward (a : NDArray α) (axis : Int) : Option (NDArray α) := do
+/-- `softmax` / `log_softmax` of a 0-d array with `dim` 0 or −1.  NumPy's reductions accept the INT axes 0 and −1 on a
+    0-d array and reduce nothing: `a.max(axis, keepdims=True)` and `.sum(axis, keepdims=True)` are the element
+    itself (every other axis raises `AxisError`).  The four kernels below evaluate the library's expressions
+    with "maximum of the fibre" / "sum over the fibre" read as the single element. -/
+def zeroDimAxis (s : Shape) (axis : Int) : Prop := s = [] ∧ (axis = 0 ∨ axis = -1)
+instance (s : Shape) (axis : Int) : Decidable (zeroDimAxis s axis) := by unfold zeroDimAxis; infer_instance
+
+def softmaxForward (a : NDArray α) (axis : Int) : Option (NDArray α) :=
+  if zeroDimAxis a.shape axis then
+    let e : α := Transc.exp (a.get [] - a.get [])            -- `exp(a − a.max())`
+    some (ofFn [] (fun _ => e / e))                          -- `exps / exps.sum()`
+  else do
   let ax ← normAxis a.shape.length axis
   if a.shape.getD ax 0 = 0 then none
   let e : Idx → α := fun i => Transc.exp (a.get i - fibreMax a ax i)
   pure (ofFn a.shape (fun i => e i / fibreSum e a.shape ax i))
 /-- `s ⊙ (g − Σ_axis g ⊙ s)` -/
-def softmaxBackward (g s : NDArray α) (axis : Int) : Option (NDArray α) := do
+def softmaxBackward (g s : NDArray α) (axis : Int) : Option (NDArray α) :=
+  if zeroDimAxis s.shape axis then
+    some (ofFn [] (fun _ => s.get [] * (g.get [] - g.get [] * s.get [])))
+  else do
   let ax ← normAxis s.shape.length axis
   pure (ofFn s.shape (fun i => s.get i * (g.get i - fibreSum (fun j => g.get j * s.get j) s.shape ax i)))
 
-def logSoftmaxForward (a : NDArray α) (axis : Int) : Option (NDArray α) := do
+def logSoftmaxForward (a : NDArray α) (axis : Int) : Option (NDArray α) :=
+  if zeroDimAxis a.shape axis then
+    let m := a.get []                                        -- `a.max()`
+    some (ofFn [] (fun _ => a.get [] - (m + Transc.log (Transc.exp (a.get [] - m)))))
+  else do
   let ax ← normAxis a.shape.length axis
   if a.shape.getD ax 0 = 0 then none
   pure (ofFn a.shape (fun i =>
     let m := fibreMax a ax i
     a.get i - (m + Transc.log (fibreSum (fun j => Transc.exp (a.get j - m)) a.shape ax i))))
 /-- `g − exp(ls) ⊙ Σ_axis g` -/
-def logSoftmaxBackward (g ls : NDArray α) (axis : Int) : Option (NDArray α) := do
+def logSoftmaxBackward (g ls : NDArray α) (axis : Int) : Option (NDArray α) :=
+  if zeroDimAxis ls.shape axis then
+    some (ofFn [] (fun _ => g.get [] - Transc.exp (ls.get []) * g.get []))
+  else do
   let ax ← normAxis ls.shape.length axis
   pure (ofFn ls.shape (fun i => g.get i - Transc.exp (ls.get i) * fibreSum g.get ls.shape ax i))
 
